@@ -33,6 +33,10 @@ CLAIMED["C08"] = ("Unbounded proof for the timeout collector (any number of stor
   "Trusted: extern contracts for slices.ContainsFunc / DeleteFunc (filter semantics via index maps), RuntimeConfig.QuorumSize contract (C20), go/ssa, SMT solvers. Not decided: see clauses_not_decided (certificate construction and verification at other replicas, second advance).",
   "contract-based deductive verification: WP over go/ssa + SMT (govc)", "DESIGN.md 3 C08")
 
+CLAIMED["C15"] = ("Unbounded proof of the safety clauses of the command cache for every cache content, batch size >= 1 and proposed-mark map: tryExtractBatch returns either nil with the cache untouched or a full batch that holds exactly the fresh (not marked proposed) commands of the consumed cache prefix in arrival order (position = number of fresh commands before it, via a recursive count spec with induction lemmas), consumes exactly that prefix, and returns nothing at or below a proposed mark; Add appends exactly non-duplicate commands; Proposed only moves marks forward and marks every command of the batch.",
+  "Trusted: mutex atomicity; generated protobuf getters are inlined from the repository's .pb.go. Known finding: in-cache duplicates (see known-findings.txt). Not decided: blocking/wake-up behaviour of Get (liveness).",
+  "contract-based deductive verification: WP over go/ssa + SMT (govc)", "DESIGN.md 3 C15")
+
 NA = {
  "C01": "cross-replica agreement over all schedules and Byzantine behaviours is a protocol-level inductive invariant over a distributed history; no contract on a function or object of one process can state it (DESIGN.md 3 C01)",
  "C05": "liveness / bounded progress under eventual synchrony is a property of whole executions of all replicas; partial-correctness contracts cannot state it (DESIGN.md 3 C05)",
